@@ -148,6 +148,10 @@ def main(argv=None):
         lines.append("VIOLATION property=%s replay=%s  # key=%s x%d: %s" % (pid, path, key, len(items), (item.get("what") or "")[:300]))
     for key, items in known_hit.items():
         print("KNOWN-FINDING: property=%s key=%s x%d: %s" % (pid, key, len(items), known[(pid, key)]["what"][:300]))
+    import fnmatch as _fn
+    for k in known_list:
+        if not any(_fn.fnmatchcase(h, k["key"]) for h in known_hit):
+            print("KNOWN-FINDING: property=%s key=%s (listed; not met in this run): %s" % (pid, k["key"], k["what"][:200]))
     for ln in lines[:10]:
         print(ln)
     if len(lines) > 10:
